@@ -3715,3 +3715,184 @@ Proof.
   - rewrite Hp. now rewrite !(absv_hp s s1 _ E1).
   - eapply pres_hp_st; eauto.
 Qed.
+
+(* ============================================================================
+   HAND MODEL of prelude.scm:147-258 (Model/PreludeLists.v).  The theorems below are
+   about that hand model, NOT about the generated prelude run by the VM model; they are
+   to be re-established there (DESIGN C14 prelude_list_ok).
+   ============================================================================ *)
+From MW Require Import Model.PreludeLists.
+
+Lemma hput_nil_fresh s :
+  values_are_refs s ->
+  exists p s', hput VNil s = ROk (VPtr p) s' /\ pres s s' /\ values_are_refs s' /\ target_ok s' p /\
+    absv s' (VPtr p) = AImm VNil /\ ~ live (hp s) p /\ st s' = st s.
+Proof.
+  intros W. assert (Hn : new_cell_ok s VNil) by exact I.
+  destruct (hput_new s VNil W Hn) as (p & h' & E & F).
+  destruct (fresh_wf s VNil p h' W Hn F) as (W' & T').
+  pose proof (fresh_pres _ _ _ _ F) as P.
+  exists p, (with_heap s h'). destruct F as (_ & Hnl & _ & _ & Hg & _).
+  refine (conj E (conj P (conj W' (conj T' (conj _ (conj Hnl eq_refl)))))).
+  cbn [absv with_heap hp]. now rewrite Hg.
+Qed.
+
+(* the VARARG loop: the same allocation pattern as vector->list *)
+Lemma vararg_go_spec rl : forall s tp,
+  values_are_refs s -> Forall (val_ok s) rl -> target_ok s tp ->
+  exists r s' locs,
+    (fix go (l : list vcell) (acc : N) : M N :=
+       match l with
+       | [] => ret acc
+       | x :: r => dom px <- hput x; dom xp <- as_ptr px; dom pp <- hput (VPair xp acc); dom p <- as_ptr pp; go r p
+       end) rl tp s = ROk r s' /\ pres s s' /\ values_are_refs s' /\ target_ok s' r /\
+    aprefix (abs s') (absv s' (VPtr r)) locs (rev (map (absv s) rl)) (absv s (VPtr tp)) /\
+    fresh_in s locs.
+Proof.
+  induction rl as [|x r IH]; intros s tp W Hrl Tt.
+  - exists tp, s, []. refine (conj eq_refl (conj (pres_refl s) (conj W (conj Tt (conj _ _))))).
+    + cbn [map rev]. constructor.
+    + constructor.
+  - inversion Hrl as [|? ? Hx Hr]; subst.
+    destruct (hput_val s x W Hx) as (ca & s1 & E1 & P1 & W1 & T1 & A1 & _).
+    assert (Tt1 : target_ok s1 tp) by (eapply pres_target_ok; eauto).
+    destruct (cons_cell s1 ca tp W1 T1 Tt1) as (p & s2 & E2 & P2 & W2 & T2 & Hnl2 & Ap2 & Hp2 & _).
+    assert (P12 : pres s s2) by (eapply pres_trans; eauto).
+    assert (Hr2 : Forall (val_ok s2) r).
+    { eapply Forall_impl; [|exact Hr]. intros y. now apply pres_val_ok. }
+    destruct (IH s2 p W2 Hr2 T2) as (r' & s' & locs & E3 & P3 & W3 & T3 & Hpre & Hfr).
+    exists r', s', (locs ++ [p]).
+    refine (conj _ (conj _ (conj W3 (conj T3 (conj _ _))))).
+    + rewrite (bind_ok _ _ _ _ _ E1). cbn [as_ptr bindM ret]. rewrite (bind_ok _ _ _ _ _ E2).
+      cbn [as_ptr bindM ret]. exact E3.
+    + eapply pres_trans; eauto.
+    + cbn [map rev]. rewrite Ap2 in Hpre.
+      assert (Em : map (absv s2) r = map (absv s) r).
+      { apply map_ext_in. intros y Hy. apply (pres_absv s s2 y P12). rewrite Forall_forall in Hr. auto. }
+      rewrite Em in Hpre.
+      eapply aprefix_snoc; [exact Hpre|].
+      rewrite (pres_a_pair s2 s' p W2 P3) by (exact (proj1 T2)).
+      rewrite Hp2. f_equal. f_equal; [exact A1|].
+      apply (pres_absv s s1 (VPtr tp) P1 Tt).
+    + unfold fresh_in. apply Forall_app. split.
+      * apply (fresh_in_pres s s2 locs P12 Hfr).
+      * constructor; [|constructor]. intros Hl. apply Hnl2. destruct P1 as (Q1 & _). auto.
+Qed.
+
+(* (list a ...): a newly allocated proper list of the arguments *)
+Theorem prelude_list_spec s args :
+  values_are_refs s -> Forall (val_ok s) args ->
+  exists r s' locs, p_list args s = ROk r s' /\
+    aprefix (abs s') (absv s' r) locs (map (absv s) args) (AImm VNil) /\ fresh_in s locs /\
+    pres s s' /\ values_are_refs s'.
+Proof.
+  intros W Hargs. unfold p_list, vararg_list.
+  destruct args as [|a [|b rest]].
+  - (* no argument: the fresh () cell *)
+    destruct (hput_nil_fresh s W) as (np & s1 & E1 & P1 & W1 & T1 & A1 & Hnl1 & _).
+    exists (VPtr np), s1, []. refine (conj _ (conj _ (conj _ (conj P1 W1)))).
+    + rewrite (bind_ok _ _ _ _ _ E1). reflexivity.
+    + cbn [map]. rewrite A1. constructor.
+    + constructor.
+  - (* exactly one argument: converted in place *)
+    inversion Hargs as [|? ? Ha _]; subst.
+    destruct (hput_val s a W Ha) as (ap & s1 & E1 & P1 & W1 & T1 & A1 & _).
+    destruct (hput_nil_fresh s1 W1) as (np & s2 & E2 & P2 & W2 & T2 & A2 & Hnl2 & _).
+    destruct (cons_cell s2 ap np W2 (pres_target_ok _ _ _ P2 T1) T2) as (p & s3 & E3 & P3 & W3 & T3 & Hnl3 & Ap3 & Hp3 & _).
+    assert (P : pres s s3) by (eapply pres_trans; [exact P1 | eapply pres_trans; eauto]).
+    exists (VPtr p), s3, [p]. refine (conj _ (conj _ (conj _ (conj P W3)))).
+    + rewrite (bind_ok _ _ _ _ _ E1). cbn [as_ptr bindM ret]. rewrite (bind_ok _ _ _ _ _ E2).
+      cbn [as_ptr bindM ret]. exact E3.
+    + cbn [map]. rewrite Ap3. econstructor; [|constructor].
+      rewrite Hp3, A2. f_equal. f_equal. rewrite (pres_absv s1 s2 (VPtr ap) P2 T1). exact A1.
+    + constructor; [|constructor]. intros Hl. apply Hnl3.
+      destruct P1 as (Q1 & _), P2 as (Q2 & _). auto.
+  - (* two or more *)
+    destruct (hput_nil_fresh s W) as (np & s1 & E1 & P1 & W1 & T1 & A1 & Hnl1 & _).
+    assert (Hrl : Forall (val_ok s1) (rev (a :: b :: rest))).
+    { apply Forall_rev. eapply Forall_impl; [|exact Hargs]. intros y. now apply pres_val_ok. }
+    destruct (vararg_go_spec (rev (a :: b :: rest)) s1 np W1 Hrl T1) as (r & s' & locs & E & P2 & W2 & T2 & Hpre & Hfr).
+    exists (VPtr r), s', locs. refine (conj _ (conj _ (conj _ (conj _ W2)))).
+    + rewrite (bind_ok _ _ _ _ _ E1). cbn [as_ptr bindM ret]. rewrite (bind_ok _ _ _ _ _ E). reflexivity.
+    + rewrite map_rev, rev_involutive, A1 in Hpre.
+      assert (Em : map (absv s1) (a :: b :: rest) = map (absv s) (a :: b :: rest)).
+      { apply map_ext_in. intros y Hy. apply (pres_absv s s1 y P1). rewrite Forall_forall in Hargs. auto. }
+      rewrite Em in Hpre. exact Hpre.
+    + apply (fresh_in_pres s s1 locs P1 Hfr).
+    + eapply pres_trans; eauto.
+Qed.
+
+(* ------------------------------------------------------- list? on circular lists *)
+(* A circular list seen unrolled: an infinite sequence of pair cells [c i] = (car, cdr)
+   in which the cdr of cell i is the address of cell i+1.  Whenever cell 2*t0 and cell t0
+   coincide for some t0 >= 1 — on a circular list with a handle of k pairs and a cycle of
+   l pairs this holds for the least multiple t0 of l with t0 >= max k 1 — the second
+   cursor (fix F11) stops the loop with #f after at most 2*t0 iterations. *)
+Lemma is_list_loop_meet s (c : nat -> N * N) t0 :
+  (forall i, heap_deref (hp s) (VPtr (snd (c i))) = Ok (VPair (fst (c (S i))) (snd (c (S i))))) ->
+  c (2 * t0)%nat = c t0 ->
+  forall m t f, (t + m = t0)%nat -> (1 <= m)%nat -> (2 * m <= f)%nat ->
+    is_list_loop f (VPair (fst (c (2 * t)%nat)) (snd (c (2 * t)%nat)))
+                   (VPair (fst (c t)) (snd (c t))) false s = ROk (VBool false) s.
+Proof.
+  intros Hnext Hmeet m. induction m as [|m IH]; intros t f Ht Hm Hf; [lia|].
+  destruct f as [|[|f]]; try lia.
+  (* first iteration: only the fast cursor moves *)
+  cbn [is_list_loop is_pair negb as_cdr bindM ret].
+  rewrite (bind_ok _ _ _ _ _ (hderef_ok s _ _ (Hnext (2 * t)%nat))).
+  cbn [negb is_list_loop is_pair as_cdr bindM ret].
+  (* second iteration: both move and are compared *)
+  rewrite (bind_ok _ _ _ _ _ (hderef_ok s _ _ (Hnext (S (2 * t))))).
+  cbn [bindM ret].
+  rewrite (bind_ok _ _ _ _ _ (hderef_ok s _ _ (Hnext t))).
+  cbn [is_pair andb pair_eqb].
+  replace (S (S (2 * t))) with (2 * S t)%nat by lia.
+  destruct ((fst (c (2 * S t)%nat) =? fst (c (S t))) && (snd (c (2 * S t)%nat) =? snd (c (S t)))) eqn:Eq;
+    [reflexivity|].
+  cbn [negb].
+  destruct m as [|m].
+  - (* the meeting point: the two cells are the same *)
+    exfalso. replace t0 with (S t) in Hmeet by lia. rewrite Hmeet in Eq.
+    rewrite !N.eqb_refl in Eq. discriminate.
+  - apply IH; lia.
+Qed.
+
+Theorem is_list_circular fuel s v (c : nat -> N * N) t0 :
+  val_ok s v -> called_with s [v] ->
+  heap_deref (hp s) v = Ok (VPair (fst (c O)) (snd (c O))) ->
+  (forall i, heap_deref (hp s) (VPtr (snd (c i))) = Ok (VPair (fst (c (S i))) (snd (c (S i))))) ->
+  (1 <= t0)%nat -> c (2 * t0)%nat = c t0 -> (2 * t0 <= fuel)%nat ->
+  exists s', is_list fuel s = ROk (VBool false) s' /\ hp s' = hp s /\ st s' = st s.
+Proof.
+  intros Hv H Hd0 Hnext Ht0 Hmeet Hfuel. unfold called_with in H. cbn [len length rev app N.of_nat Pos.of_succ_nat] in H.
+  set (s1 := with_sp s (sp s - 1)).
+  set (s2 := with_sp s1 (sp s1 - 1)).
+  pose proof (stack_top_tail _ _ _ _ H) as H1.
+  exists s2. refine (conj _ (conj eq_refl eq_refl)).
+  unfold is_list. pop_argc_tac H s 1 1 (Some 1). fold s1.
+  unfold bindM at 1. rewrite (pop_value_top s1 v [] H1). fold s2. unfold lift.
+  change (hp s1) with (hp s). rewrite Hd0.
+  exact (is_list_loop_meet s2 c t0 Hnext Hmeet t0 O fuel ltac:(lia) Ht0 Hfuel).
+Qed.
+
+(* the hypotheses of is_list_circular are satisfiable: a cycle of one or two pairs *)
+Corollary is_list_self_loop fuel s p a :
+  target_ok s p -> called_with s [VPtr p] -> heap_get (hp s) p = Ok (VPair a p) -> (2 <= fuel)%nat ->
+  exists s', is_list fuel s = ROk (VBool false) s'.
+Proof.
+  intros T H Hg Hf.
+  destruct (is_list_circular fuel s (VPtr p) (fun _ => (a, p)) 1%nat T H Hg (fun _ => Hg) ltac:(lia) eq_refl Hf)
+    as (s' & E & _). eauto.
+Qed.
+
+Corollary is_list_two_cycle fuel s p q a b :
+  target_ok s p -> called_with s [VPtr p] ->
+  heap_get (hp s) p = Ok (VPair a q) -> heap_get (hp s) q = Ok (VPair b p) -> (4 <= fuel)%nat ->
+  exists s', is_list fuel s = ROk (VBool false) s'.
+Proof.
+  intros T H Hp Hq Hf.
+  set (c := fun i : nat => if Nat.even i then (a, q) else (b, p)).
+  assert (Hnext : forall i, heap_deref (hp s) (VPtr (snd (c i))) = Ok (VPair (fst (c (S i))) (snd (c (S i))))).
+  { intros i. unfold c. rewrite Nat.even_succ, <- Nat.negb_even. destruct (Nat.even i); cbn; assumption. }
+  destruct (is_list_circular fuel s (VPtr p) c 2%nat T H Hp Hnext ltac:(lia) eq_refl Hf) as (s' & E & _). eauto.
+Qed.
